@@ -209,7 +209,7 @@ SMS_QUICK = [
     ('concat[orig ab,sms(xx/yyzz first line unmapped, symbolic column)]', CC(O('ab'), SM('xx\nyyzz', ';?AAA', ('o.js',)))),
     ('concat[sms(abcd named,unnamed,named at one original position),rawstr1]', CC(SM('abcd', 'AAAAA,CAAA,CAAAA,C', ('o.js',), (), ('n1',)), RS('!'))),
     ('concat[sms(abc unnamed then named at one original position),rawstr1]', CC(SM('abc', 'AAAA,CAAAA,?AAA', ('o.js',), (), ('n1',)), RS('!'))),
-    ('sms(abcdef/, zero-width mapped segment then an unmapped one at the same column)', SM('abcdef\n', 'AAAA,?AAE,A,EAAE', ('a.js',))),
+    ('sms(abcdef/, zero-width mapped segment then an unmapped one at the same column)', SM('abcdef\n', 'AAAA,EAAE,A,EAAE', ('a.js',))),
     ('sms(abcd, mapped then unmapped at column 0)', SM('abcd', 'AAAA,A,?AAC', ('a.js',))),
     ('concat[sms name foo,sms names foo+bar,sms name foo] (a name announced three times, a new one in between)', CC(SM('a', 'AAAAA', ('o.js',), (), ('foo',)), SM('bc', 'AAAAA,CAA?C', ('o.js',), (), ('foo', 'bar')), SM('d', 'AAAAA', ('o.js',), (), ('foo',)))),
     ('concat[sms 2 sources,sms first source,sms third source,sms first source] (sources announced repeatedly)', CC(SM('a', 'AAAA', ('o.js',)), SM('bc', 'AAAA,CCAA', ('o.js', 'p.js')), SM('d', 'AAAA', ('o.js',)))),
@@ -716,6 +716,17 @@ JSON_DOCS_THOROUGH = [
 ]
 
 
+_ANY = {'any': ['s', None, 7, True, ['x', None], [1], {'k': 'v'}, []]}
+JSON_DOCS_TYPES = [
+    ('doc: mappings, file and sources of ANY JSON type (string, null, number, bool, arrays, object), any order', [('mappings', _ANY, '?'), ('file', _ANY, '?'), ('sources', _ANY, '?')]),
+    ('doc: names / sourcesContent / sourceRoot / debugId of any JSON type', [('mappings', 'A', True), ('names', _ANY, '?'), ('sourcesContent', _ANY, '?'), ('sourceRoot', _ANY, True), ('debugId', _ANY, '?')], False),
+]
+
+
+def json_c17_jobs(tier, seed):
+    return [J('json %s' % t[0], 'jobs.jsonrt:document_job', dict(members=t[1], sym_order=(t[2] if len(t) > 2 else True)), timeout=900) for t in JSON_DOCS_TYPES]
+
+
 def json_jobs(tier, seed):
     jobs = [J('tv_json', 'jobs.jsonrt:tv_json', dict(n=60 if tier == 'quick' else 300, seed=seed), timeout=300)]
     for flav in ('mir', 'mir_rel'):
@@ -723,6 +734,7 @@ def json_jobs(tier, seed):
             jobs.append(J('json roundtrip %s [%s]' % (name, flav), 'jobs.jsonrt:roundtrip_job', dict(spec=spec, flavour=flav), timeout=300))
     for name, mem in JSON_DOCS_QUICK:
         jobs.append(J('json %s' % name, 'jobs.jsonrt:document_job', dict(members=mem), timeout=600))
+    jobs += json_c17_jobs(tier, seed)
     if tier == 'thorough':
         for name, mem in JSON_DOCS_THOROUGH:
             jobs.append(J('json %s' % name, 'jobs.jsonrt:document_job', dict(members=mem), required=False, timeout=900))
@@ -769,11 +781,11 @@ PROPS = {
                 outside='three threads; schedules with more switches; weak memory (all accesses are SeqCst in the crate; the model is sequentially consistent); switch points inside user-defined child sources; only the cache-entry-replacement class of counterexamples has a native forcing harness (real threads + a gated inner source), other interleavings would be reported as inconclusive', assumptions=['DashMap is modelled as ONE shard with a reader/writer lock held by the guards the real API returns; std Mutex / OnceLock block']),
     'C19': dict(jobs=[rope_jobs, wi_jobs, codec_c11, c18_jobs], bounds={'quick': 'unsafe sites reached through checked contracts: slice::get_unchecked / str::get_unchecked / Rope::byte_slice_unchecked (rope jobs of C16 and WithIndices::substring with SYMBOLIC char indices incl. usize::MAX over multi-byte &str and Rope lines), String::from_utf8_unchecked in both encoders (ASCII obligation on every drain)', 'thorough': 'as quick'},
                 outside='the transmute in replace_source.rs: the replacement vector is only borrowed while &self is borrowed and mutation needs &mut self (a type-system argument, not a query); misaligned access / allocator-level UB (no raw pointer arithmetic in the crate); sanitizer runs are not part of this technique', assumptions=['an unchecked operation is modelled as its checked form whose failure is reported']),
-    'C17': dict(jobs=[codec_c17, sms_jobs(['C17'], True), combined_jobs(['C17']), tree_jobs(['C17']), replace_jobs(['C17']), cached_jobs(['C17']), mb_jobs(['C17']), wild_small_jobs(['C17'])],
+    'C17': dict(jobs=[json_c17_jobs, codec_c17, sms_jobs(['C17'], True), combined_jobs(['C17']), tree_jobs(['C17']), replace_jobs(['C17']), cached_jobs(['C17']), mb_jobs(['C17']), wild_small_jobs(['C17'])],
                 bounds={'quick': 'decoder: inductive step over ONE byte (all 256 values) from every decoder state satisfying the stated invariant - covers strings of every length < 2^31; '
                                  'plus all byte strings of length <= 3 and continuation runs of 12/13/14/20 digits in each of the 5 field slots, debug and release MIR',
                         'thorough': 'as quick plus all byte strings of length <= 5, continuation runs 1..40'},
-                outside='SourceMap::from_json / from_slice / from_reader (simd-json: CPU-dispatched SIMD, not encodable); streaming of source trees with wild maps is decided by the stream jobs (stage S2/S3) when registered',
+                outside='SourceMap::from_json / from_slice / from_reader on byte sequences that are not JSON (simd-json lexer: CPU-dispatched SIMD, not encodable - the crate side, i.e. every well-formed JSON object whose members have ANY JSON type, is decided by the json document jobs over the simd-json contract); streaming of source trees with wild maps is decided by the stream jobs (stage S2/S3) when registered',
                 assumptions=['decoder invariant: current_value_pos = 5k with k <= bytes consumed; current_data_pos <= bytes consumed; generated_line <= bytes consumed + 1; fewer than 2^31 bytes']),
 }
 
